@@ -93,20 +93,20 @@ HISTORY = {
  'C15': 'first run: MISSED -- its non-termination had the very signature of the known finding D2 -> known findings are now restricted to listed inputs; an unlisted input with a known signature is a violation',
  'C16': 'first run: MISSED (only symmetric travel-time matrices were generated) -> all asymmetric matrices on 3 nodes + deviation-bounded asymmetry on 4 nodes',
  'C17': 'first run: MISSED by the quick grid (no close pairs at large magnitudes; the thorough grid had them) -> neighbours v+-1, v+2 of every large grid value',
- 'C19': 'first run: MISSED by C19 (caught by C11 at the container level): needs 6-7 item knapsacks -> KPB-6 / KPB-7 complete families in the cut-off plans',
+ 'C19': 'first runs: caught by C11 (container level) only; C19 stayed silent even with the complete 6-7 item knapsack families over {1,3} -> families KPH (a hand-written 7-item knapsack with profits up to 9 and all its neighbours at Hamming distance 1; found again independently as C19r5): C19 reports it (ub 31 at poll 80, 34 at poll 81)',
  'C03b': 'caught by C04 and C09 (single-worker sweep: hang confirmed by the second, longer run); C03 reports it as par:no-result:deadlock when its budget reaches a caching unit',
  'C16b': 'first run: MISSED (the quick tier had one aircraft class only wherever it had two runways) -> scope (3 aircraft, 2 classes, 2 runways) over reduced alphabets added to the quick tier',
  'C16yr3': 'the knapsack scope had weights >= 1 only; weightless items (well formed: the unchanged example handles them) were added when the change was received, before its first run',
  'C16xr3': 'the scope stopped at 2 actors -> all 3 x 3 presence matrices whose actors play in >= 2 scenes (triangles) added to the quick tier before the first run; while confirming this seed the sub-agent noticed off-by-one answers of the UNCHANGED example: genuine defect D14',
- 'C16zr3': 'first run: MISSED (the scope stopped at 4 departments with flows {0,1,2}: merged states need >= 4 departments and their cut values only matter for dense matrices) -> 5 departments, lengths {1,2} (non decreasing in the quick tier), flows {1,2}; while looking for a seed in lcs the sub-agent found the UNCHANGED lcs example wrong: genuine defect D16',
  'C14b': 'first run: caught by C03 only; C14 itself since the explicit-state search (all interleavings) runs with a primal',
  'C05r3': 'needs two pre-emptions with both workers cut off: caught by the deeper bound and by the explicit-state search',
  'C03r4': 'first run: MISSED by C03, C02, C04 (the pre-emption bound of the quick tier was 2 for two workers, and the instances of the explicit-state search are the smallest ones) -> deeper bound (3; thorough 4) on many instances under the cheapest configuration: TM-B4#1036 is the first instance with the needed shape',
  'C16qr4': 'first run: MISSED (the scope stopped at 6 / 7 marks) -> 2..8 (9) marks at every width, 9 (10) marks at width 1',
  'C16sr4': 'MISSED by the quick tier (scope: separations over {1,2}, at most 3 aircraft); the thorough tier got a block (4 aircraft, 2 classes, 1 runway, asymmetric separations over {1,4}) which reports it; a reduced block for the quick tier did not',
  'C16pr4': 'MISSED by both tiers: the max2sat scope has at most 3 variables and positive weights; the change needs 4 variables and (in practice) a negative weight -- 4 variables x 4 clauses x signed weights is 1.9e7 runs, beyond the tiers; recorded as a limit of the scope',
- 'C19': 'caught by C11 (container level) in every campaign; C19 itself has not reported it: the out-of-order pops it causes did not change the reported upper bound at any cut-off index of the enumerated knapsack families',
  'C06b': 'first run: caught by C15 and C01, MISSED by C06 under load (the irrelevance plans came last and the cap cut them) -> plans are now run cheapest first, the irrelevance families are reached in every quick run',
+ 'C19r5': 'first run: caught by C11 only, C19 and C05 silent (same change as the first C19 seed) -> families KPH in the cut-off plans of C19: reported (ub 30 at poll 84, 33 at poll 85)',
+ 'C16zr3': 'first run: MISSED (the scope stopped at 4 departments with flows {0,1,2}: merged states need >= 4 departments and their cut values only matter for dense matrices) -> 5 departments, lengths {1,2} (non decreasing in the quick tier), flows {1,2}: reported; that run also produced the false alarm F8 (golomb@w1 "hang" on a loaded machine) -> CPU-time based watchdog; while looking for a seed in lcs the sub-agent found the UNCHANGED lcs example wrong: genuine defect D16',
 }
 results = {}
 for f in sys.argv[1:]:
